@@ -57,9 +57,9 @@ var initAllow = map[string]bool{}
 
 func init() {
 	for _, a := range strings.Split("io,strconv,unicode,unicode/utf8,unicode/utf16,sort,strings,bytes,math,math/bits,regexp,regexp/syntax,encoding/binary,"+
-		"github.com/getlantern/sqlparser,github.com/getlantern/goexpr,github.com/getlantern/bytemap,"+
+		"github.com/getlantern/sqlparser,github.com/getlantern/sqlparser/dependency/sqltypes,github.com/getlantern/goexpr,github.com/getlantern/bytemap,"+
 		"github.com/getlantern/wal,github.com/getlantern/vtime,container/heap,container/list,io/ioutil,hash/crc32,encoding/hex,encoding/base64,"+
-		"google.golang.org/grpc/metadata,google.golang.org/grpc/codes,path,path/filepath,io/fs,internal/oserror", ",") {
+		"google.golang.org/grpc/metadata,google.golang.org/grpc/codes,path,path/filepath,io/fs,internal/oserror,internal/bytealg", ",") {
 		initAllow[a] = true
 	}
 }
